@@ -29,7 +29,8 @@ TIMEOUT = {'quick': 900, 'thorough': 6 * 3600}
 RECHECK = 40
 PAYLOAD_KEEP = 3000   # digests of the first groups are kept for the cross-hashseed comparison
 RULE = ('each run = one workload group: a generated model (random acyclic program or '
-        'priors->simulator->summaries->discrepancy) with 2-4 operations of interest '
+        'priors->simulator->summaries->discrepancy, sometimes with a latent RandomVariable '
+        'above a prior) with 2-4 operations of interest '
         '(model.generate(bs, outputs, with_values, seed); BatchHandler.compute(i) for a list of '
         'indices on one long-lived context; seeded Rejection / SMC sample) executed under K '
         'histories (K in {3,4,6,8}, tape-chosen) in one process - insertion order, global numpy '
